@@ -7,7 +7,7 @@ from xh.runner import Cond, run_conditions
 
 def main(tier: str) -> int:
     rep = common.Report("C18", tier, "other")
-    rep.functions = ["generated pt.S_1_0: __init__, property setters a, b, c, d, t", "generated pt.U_1_0: __init__, property setters (union option switching)"]
+    rep.functions = ["generated pt.S_1_0: __init__, property setters a, b, c, d, t, h (float16), g (float32)", "generated pt.U_1_0: __init__, property setters (union option switching)"]
     with common.scratch("nvc18_") as d:
         try:
             build.nnvg("py", d / "py", common.VERIF / "data" / "ns3" / "pt")
@@ -23,11 +23,12 @@ def main(tier: str) -> int:
         P = dict(C18_PKG=str(d / "py"))
         conds.append(Cond("h_C18", "union_holds_exactly_one", T, 60, P))
         conds.append(Cond("h_C18", "union_assignment_switches_option", T, 60, P))
+        conds.append(Cond("h_C18", "float_setter_validates", T, 60, P))
         run_conditions(rep, conds)
     rep.bounds = dict(fields="uint8, int12, uint3, int64, truncated uint17", values="windows of +-3 around both range bounds and around 0",
                       union="every None/non-None pattern of the three constructor arguments with boundary values; assignment after each initial option")
     rep.assumptions = ["windows around the bounds: the ValueError message formats the value and CrossHair then enumerates each out-of-range integer (wide ranges not confirmable)"]
-    rep.not_covered = ["arrays and floats (numpy C code realises symbolic values)", "_MODEL_ equality with the source DSDL model and the to_builtin round trip "
+    rep.not_covered = ["arrays; floats beyond a finite list of 23 boundary / non-finite candidates for float16 and float32 fields (numpy C code realises symbolic values)", "_MODEL_ equality with the source DSDL model and the to_builtin round trip "
                        "(no symbolic variable; pickle/numpy) -- these clauses are NOT decided", "types beyond pt.S.1.0 / pt.U.1.0"]
     rep.extra["explanation"] = "CrossHair/z3 over the generated setters/constructors with symbolic candidate values"
     rep.extra["trusted_base"] = ["crosshair-tool 0.0.110", "z3", "CPython 3.12", "numpy (import only)"]
